@@ -389,6 +389,18 @@ def run_tracing(prop, tier, seed, ctx):
                                               recorded_other=b.split("|")[-1].strip(), other_build=names[i],
                                               verdict="the tracing build changes what peers observe (or how often a message expression is evaluated)"))
                 break
+    # interval (an anchor of C20 as well): the mock-nursery scripts of C16 on the default and the tracing build
+    iv = ivl_scripts(2, 5) + ["S0o T0 T0 S1o T1 T0q T0 T1 Q1 T1", "S0s T0 S1c S2o T2 T2"]
+    ivout = []
+    for cfgname in ("default", "tracing"):
+        p = subprocess.run([ctx["harness_bin"](cfgname), "interval"], input="\n".join(iv) + "\n", capture_output=True, text=True, timeout=3500)
+        ivout.append(p.stdout.splitlines())
+    res["coverage"]["evaluations"] += 2 * len(iv)
+    res["coverage"]["interval_scripts"] = len(iv)
+    if ivout[0] != ivout[1]:
+        bad = next(((a, b) for a, b in zip(ivout[0], ivout[1]) if a != b), (str(len(ivout[0])), str(len(ivout[1]))))
+        res["violations"].append(dict(kind="impl-vs-impl", instance="interval", recorded_default=bad[0], recorded_other=bad[1], other_build="tracing",
+                                      verdict="interval behaves differently when built with the tracing feature"))
     if recs[0]:
         res["coverage"]["samples"] = [dict(default=recs[0][0], tracing_with_subscriber=recs[2][0] if recs[2] else None)]
     res["coverage"]["rule"] = ("every sequential script of this run replayed on three builds (default; `tracing` without and with a subscriber installed), "
